@@ -11,6 +11,7 @@
 import MosVerif.Util
 -- @component tlscfg MosVerif.TlsCfg.runCfg
 -- @component handshake MosVerif.TlsCfg.runHandshake
+-- @component tlshist MosVerif.TlsCfg.runHist
 namespace MosVerif.TlsCfg
 
 inductive FileRef where
@@ -54,6 +55,9 @@ structure GoTls where
   clientCAs : Pool
   clientAuth : ClientAuth
   certificates : CertSrc
+  /-- `ClientSessionCache`: `none` = nil (the client never resumes a session); `some i` = the cache
+      object number `i` (two configs with the same number share resumable sessions) -/
+  sessionCache : Option Nat
   deriving DecidableEq, Repr
 
 inductive MkRes where
@@ -80,12 +84,12 @@ def makeTlsConfig (cfg : TlsConfig) (requireCert : Bool) : MkRes :=
     | .ok (root, client) =>
       -- if cfg.VerifyClientCert { c.ClientAuth = tls.RequireAndVerifyClientCert }
       let auth := if cfg.verifyClientCert then ClientAuth.requireAndVerifyClientCert else .noClientCert
-      if cfg.debugUseTempCert then .ok ⟨insecure, root, client, auth, .temp⟩
+      if cfg.debugUseTempCert then .ok ⟨insecure, root, client, auth, .temp, none⟩
       else if !cfg.key.isEmpty && !cfg.cert.isEmpty then
         match cfg.cert, cfg.key with
-        | .good i, .good j => if i = j then .ok ⟨insecure, root, client, auth, .file i⟩ else .errLoadCert
+        | .good i, .good j => if i = j then .ok ⟨insecure, root, client, auth, .file i, none⟩ else .errLoadCert
         | _, _ => .errLoadCert
-      else .ok ⟨insecure, root, client, auth, .none⟩
+      else .ok ⟨insecure, root, client, auth, .none, none⟩
 
 /-! ### who is accepted -/
 
@@ -187,6 +191,162 @@ def specHs (c : HsCase) (o : Option Bool) : Bool :=
        (c.peer == .wrongName && c.cfg.ca == .good 1))   -- client certificates carry no name to match
     else true
 
+
+/-! ### histories: several upstreams / several clients, one after the other
+
+  crypto/tls resumes a session found in the config's `ClientSessionCache` under the server name
+  WITHOUT verifying the server's chain against the resuming config again. Whether an exchange
+  succeeds may therefore depend on what other configs sharing the cache did before — unless there
+  is no cache (the `tls.Config` built by `makeTlsConfig` has none). On the server side a resumed
+  session carries the client certificates of the handshake that created it. -/
+
+/-- an upstream: its TLS options and whether its URL host is `srv.test` (the name the harness'
+    certificates are issued for) or `other.test` (the name of the `wrongName` certificate) -/
+structure UpCfg where
+  cfg : TlsConfig
+  hostSrv : Bool
+  deriving DecidableEq, Repr
+
+/-- the server certificate as seen by an upstream with that URL host -/
+def peerFor (k : CertKind) (hostSrv : Bool) : Option Peer :=
+  k.peer.map (fun p => { p with nameOk := (k == .wrongName) != hostSrv })
+
+/-- full handshake of a client built from `g` for that URL host -/
+def fullVerdict (peer : CertKind) (g : GoTls) (hostSrv : Bool) : Bool :=
+  match peerFor peer hostSrv with
+  | some p => verdict g p
+  | none => false
+
+/-- resumable sessions: (cache object, server name) -/
+abbrev Sessions := List (Nat × Bool)
+
+/-- one exchange over a fresh connection of an upstream whose config is `g` -/
+def upStep (peer : CertKind) (ss : Sessions) (g : GoTls) (hostSrv : Bool) : Bool × Sessions :=
+  let resumed := match g.sessionCache with
+    | some c => ss.contains (c, hostSrv)
+    | none => false
+  let ok := resumed || fullVerdict peer g hostSrv
+  (ok, match g.sessionCache with
+       | some c => if ok then (c, hostSrv) :: ss else ss
+       | none => ss)
+
+def runUp (peer : CertKind) : Sessions → List (GoTls × Bool) → List Bool
+  | _, [] => []
+  | ss, (g, h) :: rest =>
+    let r := upStep peer ss g h
+    r.1 :: runUp peer r.2 rest
+
+def getAll {α : Type} (l : List α) : List Nat → Option (List α)
+  | [] => some []
+  | i :: is => match l[i]?, getAll l is with
+    | some a, some r => some (a :: r)
+    | _, _ => none
+
+def mkAll : List UpCfg → Option (List (GoTls × Bool))
+  | [] => some []
+  | u :: us => match makeTlsConfig u.cfg false, mkAll us with
+    | .ok g, some r => some ((g, u.hostSrv) :: r)
+    | _, _ => none
+
+/-- the same over upstream configurations: each upstream's `tls.Config` comes from `makeTlsConfig` -/
+def runUpCfg (peer : CertKind) : Sessions → List UpCfg → List Bool
+  | _, [] => []
+  | ss, u :: rest =>
+    match makeTlsConfig u.cfg false with
+    | .ok g =>
+      let r := upStep peer ss g u.hostSrv
+      r.1 :: runUpCfg peer r.2 rest
+    | _ => false :: runUpCfg peer ss rest
+
+/-- upstream side history: `none` = start-up refused (some upstream's options are rejected) -/
+def modelUpHist (peer : CertKind) (ups : List UpCfg) (steps : List Nat) : Option (List Bool) :=
+  match mkAll ups with
+  | none => none
+  | some _ => (getAll ups steps).map (runUpCfg peer [])
+
+/-- property text: an exchange succeeds only if the certificate chains to THAT upstream's CA and
+    matches THAT upstream's server name, unless THAT upstream disabled verification -/
+def allowedUp (u : UpCfg) (peer : CertKind) : Bool :=
+  u.cfg.insecureSkipVerify ||
+  (u.hostSrv && ((peer == .valid && u.cfg.ca == .good 1) || (peer == .unknownCA && u.cfg.ca == .good 2))) ||
+  (!u.hostSrv && peer == .wrongName && u.cfg.ca == .good 1)
+
+def allOk : List UpCfg → List Bool → CertKind → Bool
+  | [], [], _ => true
+  | u :: us, o :: os, peer => (!o || allowedUp u peer) && allOk us os peer
+  | _, _, _ => false
+
+def specUpHist (peer : CertKind) (ups : List UpCfg) (steps : List Nat) (o : Option (List Bool)) : Bool :=
+  match o, getAll ups steps with
+  | some outs, some us => allOk us outs peer
+  | some _, none => false
+  | none, _ => true
+
+/-- listener side: a client connection presents `cert` and uses the client session cache `cache` -/
+structure CliStep where
+  cert : CertKind
+  cache : Option Nat
+  deriving DecidableEq, Repr
+
+/-- client caches: cache ↦ certificate kind of the full handshake that created the cached session -/
+abbrev CliSessions := List (Nat × CertKind)
+
+def liFull (g : GoTls) (ss : CliSessions) (s : CliStep) : Bool × CliSessions :=
+  let ok := s.cert != .plain && serves g s.cert.peer
+  (ok, match s.cache with
+       | some c => if ok then (c, s.cert) :: ss else ss
+       | none => ss)
+
+/-- crypto/tls server, `checkForResumption`: with RequireAndVerifyClientCert a ticket is accepted only
+    if it carries client certificates, which are verified again; the new ticket carries them on -/
+def liStep (g : GoTls) (ss : CliSessions) (s : CliStep) : Bool × CliSessions :=
+  match s.cache.bind (fun c => ss.lookup c) with
+  | some orig =>
+    if s.cert != .plain && g.clientAuth == .requireAndVerifyClientCert && serves g orig.peer then (true, ss)
+    else liFull g ss s
+  | none => liFull g ss s
+
+def runLi (g : GoTls) : CliSessions → List CliStep → List Bool
+  | _, [] => []
+  | ss, s :: rest =>
+    let r := liStep g ss s
+    r.1 :: runLi g r.2 rest
+
+def modelLiHist (cfg : TlsConfig) (steps : List CliStep) : Option (List Bool) :=
+  match makeTlsConfig cfg true with
+  | .ok g => some (runLi g [] steps)
+  | _ => none
+
+def allowedLi (cfg : TlsConfig) (cert : CertKind) : Bool :=
+  (cert == .valid && cfg.ca == .good 1) || (cert == .unknownCA && cfg.ca == .good 2) ||
+  (cert == .wrongName && cfg.ca == .good 1)
+
+def viaCache (auth : List Nat) (cache : Option Nat) : Bool :=
+  match cache with
+  | some c => auth.contains c
+  | none => false
+
+def authNext (auth : List Nat) (cache : Option Nat) (good : Bool) : List Nat :=
+  match cache with
+  | some c => if good then c :: auth else auth
+  | none => auth
+
+/-- property text, with resumption: with `verify_client_cert`, a served connection either presented an
+    acceptable certificate itself or resumed a session (same client cache) whose creating handshake did.
+    `auth`: the caches that hold such a session. -/
+def specLi (cfg : TlsConfig) : List Nat → List CliStep → List Bool → Bool
+  | _, [], [] => true
+  | auth, s :: ss, o :: os =>
+    let own := allowedLi cfg s.cert
+    let via := viaCache auth s.cache
+    (!o || own || via) && specLi cfg (authNext auth s.cache (o && (own || via))) ss os
+  | _, _, _ => false
+
+def specLiHist (cfg : TlsConfig) (steps : List CliStep) (o : Option (List Bool)) : Bool :=
+  match o with
+  | some outs => if cfg.verifyClientCert then specLi cfg [] steps outs else outs.length == steps.length
+  | none => true
+
 /-! ### line protocol -/
 
 def fileOfStr (s : String) : Option FileRef :=
@@ -205,7 +365,8 @@ def strOfMk : MkRes → String
   | .ok g =>
     let auth := match g.clientAuth with | .noClientCert => "0" | .requireAndVerifyClientCert => "4"
     let certs := match g.certificates with | .none => "none" | .temp => "temp" | .file i => toString i
-    s!"insecure={strOfBool g.insecureSkipVerify} root={strOfPool g.rootCAs} client={strOfPool g.clientCAs} auth={auth} certs={certs}"
+    let cache := match g.sessionCache with | none => "nil" | some _ => "set"
+    s!"insecure={strOfBool g.insecureSkipVerify} root={strOfPool g.rootCAs} client={strOfPool g.clientCAs} auth={auth} certs={certs} cache={cache}"
 
 def cfgOfToks (toks : List String) : Option TlsConfig := do
   let cert ← (kvGet toks "cert").bind fileOfStr
@@ -255,7 +416,11 @@ def mkOfStr (s : String) : Option MkRes :=
       | some "temp" => some CertSrc.temp
       | some n => (natOfStr n).map CertSrc.file
       | none => none
-    pure (.ok ⟨ins, root, client, auth, certs⟩)
+    let cache ← match kvGet toks "cache" with
+      | some "nil" => some none
+      | some "set" => some (some 0)
+      | _ => none
+    pure (.ok ⟨ins, root, client, auth, certs, cache⟩)
 
 /-- component `tlscfg`: `req=<0|1> cert=<-|n|bad> key=… ca=… insecure=<0|1> vcc=<0|1> temp=<0|1>` -/
 def runCfg (case impl : String) : String × String :=
@@ -300,5 +465,63 @@ def runHandshake (case impl : String) : String × String :=
       | none => "unparsed"
     (strOfOutcome (modelHs c), v)
   | _, _, _, _ => ("bad-case", "na")
+
+def strOfOuts : Option (List Bool) → String
+  | none => "refused"
+  | some l => ".".intercalate (l.map (fun b => if b then "ok" else "fail"))
+
+def outsOfStr (s : String) : Option (Option (List Bool)) :=
+  if s == "refused" then some none
+  else if s == "" then some (some [])
+  else
+    let r := (s.splitOn ".").map (fun t => if t == "ok" then some true else if t == "fail" then some false else none)
+    if r.all Option.isSome then some (some (r.filterMap id)) else none
+
+def upOfStr (s : String) : Option UpCfg :=
+  match s.splitOn ":" with
+  | [ca, ins, h] => do
+    let ca ← fileOfStr ca
+    let ins ← boolOfStr ins
+    let hs ← if h == "s" then some true else if h == "o" then some false else none
+    pure ⟨⟨.unset, .unset, ca, ins, false, false⟩, hs⟩
+  | _ => none
+
+def cliOfStr (s : String) : Option CliStep :=
+  match s.splitOn ":" with
+  | [k, c] => do
+    let k ← kindOfStr k
+    let c ← if c == "-" then some none else (natOfStr c).map some
+    pure ⟨k, c⟩
+  | _ => none
+
+def allSome {α : Type} (l : List (Option α)) : Option (List α) :=
+  if l.all Option.isSome then some (l.filterMap id) else none
+
+/-- component `tlshist`:
+    `side=up proto=… peer=<kind> ups=<ca>:<insecure>:<s|o>,… steps=<i>.<i>.…`
+    `side=li proto=… ca=<-|1|2> vcc=<0|1> steps=<kind>:<cache|->,…` → `ok.fail.…` | `refused` -/
+def runHist (case impl : String) : String × String :=
+  let toks := words case
+  match kvGet toks "side" with
+  | some "up" =>
+    match (kvGet toks "peer").bind kindOfStr, (kvGet toks "ups").bind (fun s => allSome ((s.splitOn ",").map upOfStr)),
+          (kvGet toks "steps").bind (fun s => allSome ((s.splitOn ".").map natOfStr)) with
+    | some peer, some ups, some steps =>
+      let v := match outsOfStr impl with
+        | some o => if specUpHist peer ups steps o then "ok" else "viol"
+        | none => "unparsed"
+      (strOfOuts (modelUpHist peer ups steps), v)
+    | _, _, _ => ("bad-case", "na")
+  | some "li" =>
+    match (kvGet toks "ca").bind fileOfStr, (kvGet toks "vcc").bind boolOfStr,
+          (kvGet toks "steps").bind (fun s => allSome ((s.splitOn ",").map cliOfStr)) with
+    | some ca, some vcc, some steps =>
+      let cfg : TlsConfig := ⟨.good 1, .good 1, ca, false, vcc, false⟩
+      let v := match outsOfStr impl with
+        | some o => if specLiHist cfg steps o then "ok" else "viol"
+        | none => "unparsed"
+      (strOfOuts (modelLiHist cfg steps), v)
+    | _, _, _ => ("bad-case", "na")
+  | _ => ("bad-case", "na")
 
 end MosVerif.TlsCfg
